@@ -132,6 +132,10 @@ claim("C09", "Proof that buildDescribeBatch sorts the method names before render
       "sort.Strings sorts (assumed); serializeSchema / arrow builders are unknown calls.",
       ["the canonical framing bytes of the hash and equality with the reference algorithm (checked by the replay witnesses only)", "independence of registration order (map iteration in availableMethods; the sort makes it so, witnesses only)", "pipe/HTTP parity of the describe response"])
 
+claim("C29", "Proof (sequential semantics, registry mutex assumed atomic) that the session registry hands an entry only to the principal key that opened it and only while unexpired; that an expired or closed entry is removed from the registry before its state's Close runs (so it cannot be found and closed again), a lookup by another principal leaves it alone, a miss closes nothing; that open registers nothing while draining and otherwise registers the entry under the returned id for the opening principal; that shutdown empties the registry before the first Close; that a request resuming a session locks exactly that entry's mutex and records it in its cleanup handle (a field nobody else writes: checked), and ReleaseLock unlocks exactly that mutex, once.",
+      "interleavings of concurrent requests respect the registry mutex (assumed); a state's Close is user code: nothing is claimed about the registry after it ran.",
+      ["same-session calls never overlap (needs the thread schedule; the lock/unlock pairing is what is proved)", "every handler defers ReleaseLock after install (structure of the call sites, witnesses only)", "token sealing/opening of the session token (C13 AAD)"])
+
 # properties not claimed: reason
 NOT_APPLICABLE = {
     "C11": "relational two-run equivalence between the pipe loop and the HTTP handlers routed through gob, AEAD and Arrow IPC; contracts here are single-run and per function",
